@@ -51,6 +51,17 @@ def gen_cfg(m, invariants):
     return "\n".join(lines) + "\n"
 
 
+def live_cfg(m, properties):
+    lines = ["SPECIFICATION MCLiveSpec", "CONSTANTS", "  Dev = " + S(*sorted(active_dev()))]
+    for k, v in m.items():
+        if k in ("name", "must_cover", "limit"):
+            continue
+        lines.append(f"  {k} {v}" if str(v).startswith("<-") else f"  {k} = {v}")
+    lines.append("PROPERTIES " + " ".join(properties))
+    lines.append("CHECK_DEADLOCK FALSE")
+    return "\n".join(lines) + "\n"
+
+
 def mc_cfg(m, invariants, dev=None):
     dev = active_dev() if dev is None else dev
     lines = ["SPECIFICATION MCSpec", "CONSTANTS", "  Dev = " + S(*sorted(dev))]
@@ -90,6 +101,7 @@ PROPS = {
                             mc("Core-abandon-2x2", ops=("send", "call", "ping", "stop", "abandon"), cfgs="CfgsB1", must_cover=("Abandon",)),
                             mc("Core-abandon-sc-2x2", ops=("send", "call", "drop", "abandon"), cfgs="CfgsB1", kinds="InitKindsSC", must_cover=("Abandon",))]},
         "gen": {"quick": [gen("g-sc-b1-2x2", "Main_SC_B1", ops=("send", "call", "drop"))], "thorough": [gen("g-sc-b1-2x2", "Main_SC_B1", ops=("send", "call", "drop"), scripts="ScriptsCore"), gen("g-cancel-2x2", "Main_Addr2_B1", ops=("send", "call"), faults=("cancel",), maxfaults=1)]},
+        "live": [(mc("Live-2x2", ops=("send", "call", "ping", "stop", "drop", "await"), scripts="ScriptsPlain", cfgs="CfgsB1"), ["L_Resolves"]), (mc("Live-sc-2x2", ops=("send", "call", "drop"), scripts="ScriptsPlain", cfgs="CfgsB1", kinds="InitKindsSC"), ["L_Resolves"])],
         "families": [("core", 200, 2000), ("life", 100, 1000), ("fail", 100, 1000)],
         "relevant": r'"op":"call"', "relevant_min": 1,
     },
@@ -107,6 +119,7 @@ PROPS = {
                "thorough": [mc("Stop-2x3", maxops=3, ops=STOPOPS, scripts="ScriptsStop", cfgs="CfgsTwo"),
                             mc("Stop-aw-3x2", clients=C3, ops=AWOPS, kinds="InitKindsAW", cfgs="CfgsB1")]},
         "gen": {"quick": [gen("g-stop-2x2", "Main_Addr2_B1", ops=("send", "call", "stop", "halt", "await"))], "thorough": [gen("g-stop-2x2", "Main_Addr2_B1", ops=("send", "call", "stop", "halt", "await"), scripts="ScriptsStop"), gen("g-aw-2x2", "Main_AW_Unb", ops=("send", "stop", "try_stop", "try_halt", "await_ref"))]},
+        "live": [(mc("Live-stop-2x2", ops=("send", "call", "stop", "halt", "await"), scripts="ScriptsStop", cfgs="CfgsB1"), ["L_StopTerminates", "L_Resolves"])],
         "families": [("life", 250, 2500), ("stream", 60, 600), ("timeout", 60, 600)],
         "relevant": r'"op":"(stop|halt|try_stop|try_halt|consume|await|await_ref)"|ctx_stop', "relevant_min": 1,
     },
@@ -117,6 +130,7 @@ PROPS = {
                "thorough": [mc("Life-handles-2x3", maxops=3, ops=HOPS, scripts="ScriptsPlain", cfgs="CfgsTwo"),
                             mc("Life-weak-3x2", ops=("send", "call", "drop", "upgrade", "clone"), kinds="InitKindsWeak", scripts="ScriptsPlain", clients=C3, cfgs="CfgsB1")]},
         "gen": {"quick": [gen("g-drop-2x2", "Main_AW_Unb", ops=("send", "drop", "upgrade", "clone"))], "thorough": [gen("g-drop-2x3", "Main_AW_Unb", maxops=3, ops=("send", "drop", "upgrade", "downgrade"))]},
+        "live": [(mc("Live-drop-2x2", ops=("send", "drop", "clone", "downgrade", "upgrade"), scripts="ScriptsPlain", cfgs="CfgsB1", kinds="InitKindsAW"), ["L_DropTerminates"])],
         "families": [("life", 250, 2500), ("timers", 80, 800), ("broker", 50, 500)],
         "relevant": r'"op":"(drop|upgrade|downgrade)"', "relevant_min": 1,
     },
@@ -199,6 +213,7 @@ PROPS = {
         "mc": {"quick": [mc("Core-addr-2x2", must_cover=SUBMIT), mc("Core-b-2x2", kinds="InitKindsSC", cfgs="CfgsB1", ops=("send", "call", "stop"))],
                "thorough": [mc("Core-addr-2x3", maxops=3, cfgs="CfgsCore2"), mc("Core-b-3x2", clients=C3, kinds="InitKindsSC", cfgs="CfgsB1", ops=("send", "call", "stop"))]},
         "gen": {"quick": [gen("g-addr-b0-2x2", "Main_Addr2_B0", ops=("send", "call", "stop"))], "thorough": [gen("g-addr-b0-2x3", "Main_Addr2_B0", maxops=3, ops=("send", "call")), gen("g-sc-b1-2x3", "Main_SC_B1", maxops=3, ops=("send", "call"))]},
+        "live": [(mc("Live-send-2x2", ops=("send", "call", "stop"), scripts="ScriptsPlain", cfgs="CfgsB1", kinds="InitKindsSC"), ["L_SendReturns"]), (mc("Live-send0-2x2", ops=("send", "call", "drop"), scripts="ScriptsPlain", cfgs="CfgsCore"), ["L_SendReturns"])],
         "families": [("core", 250, 2500)],
         "relevant": r'"op":"send"', "relevant_min": 1,
     },
